@@ -46,7 +46,7 @@ class T:
         r = self.r
         k = r.random()
         if k < 0.15:
-            return ("HQ", r.choice(["a b", "last year", "x 1"]))
+            return ("HQ", r.choice(["a b", "last year", "x 1", "unit.price", "a.nocontrib", "v1.2 x"]))
         if k < 0.3:
             return ("H", str(r.choice([0, 1, 2])))
         return ("H", r.choice(H) + r.choice(["", "", "", ".nocontrib", ".asbool"]))
@@ -262,7 +262,7 @@ def real_tree(matcher):
     from csvpath.matching.functions.function import Function
 
     def payload(n):
-        return ".".join([f"{n.name}"] + list(n.qualifiers or []))
+        return "\x1f".join([f"{n.name}"] + list(n.qualifiers or []))      # name and qualifiers as the node holds them
 
     def arg(n):
         if isinstance(n, Term):
@@ -280,7 +280,7 @@ def real_tree(matcher):
             return ("V", payload(n))
         if isinstance(n, Header):
             p = payload(n)
-            return ("HQ", p) if " " in p else ("H", p)
+            return ("HQ", p) if " " in p or "." in p else ("H", p)
         if isinstance(n, Reference):
             return ("R", payload(n))
         if isinstance(n, Equality):
